@@ -38,6 +38,18 @@ CHECKS = {
         'quantization; C10_chain lifts it to conversion sequences of any length by induction; C10_preserves_representable. One corner (float source vdtype, positive shift, rescaled code >= 2^53, i.e. an overflowing value) '
         'is outside the theorem and rests on the correspondence run. Tie: 9 concrete routes x format pairs x modes x shapes x source construction routes x chains, against Spec and the model.',
    design='7/C10', technique='Coq proof of the conversion model = quantizer (+ chain induction) + differential correspondence'),
+
+ 'C07': dict(
+   text='Proof: C07_add_sub_mul_exact - for every pair of operand formats (any signedness mix, any word length, n_frac <= n_word+1), every pair of in-range codes, arrays of any length, the model of '
+        '_add_raw/_sub_raw/_mul_raw (int64 / uint64 wrap, int64+uint64 -> float64 promotion, Python-object path selected by the _raw_cast guard) followed by Fxp(val, raw=True) stores the exact integer result with no '
+        'overflow/underflow flag; C07_exact_int_is_exact ties that integer to the exact dyadic result; C07_no_overflow_* are bound lemmas over all formats (not corner enumeration); C07_unsigned_difference states the one exception; '
+        'C07_tree lifts exactness to nested expressions of any depth by induction. Tie: every code pair of small words as broadcast arrays, extreme corners, random operands, 3 call routes, expression trees, against Spec and model.',
+   design='7/C07', technique='Coq proof (dtype-level model, guard soundness, growth bound, tree induction) + differential correspondence'),
+ 'C19': dict(
+   text='Proof: the C07 theorems carry no width hypothesis (C19_arith_any_width), because C19_guard_sound shows that whenever functions._raw_cast leaves the operands in int64 / uint64 / float64 every intermediate '
+        'is exact (|z|<2^63, reinterpretable uint64, <2^53) and otherwise Python integers are used; C19_store_python_int: a Python integer of ANY size stored into ANY format with n_frac>=0 is OVERFLOW(v*2^n_frac) with exact flags '
+        '(model of the _use_pyint decision of set_val). Tie: Python integers up to 2^1000 by four store routes; operand words 2..70 with results up to 141 bits, extremes / near extremes / random, 3 call routes.',
+   design='7/C19', technique='Coq proof of guard soundness at every width + differential correspondence'),
 }
 NA_REASON = 'check not built yet (work in progress; see DESIGN.md section 10 order of work)'
 def main():
